@@ -23,7 +23,12 @@ REGION = os.environ.get("VERIF_E4_REGION") or None
 XLO, XHI = -3, 4
 RMAX = 1000
 
-if KIND == "c32":
+STRICT = KIND == "c19"      # indices outside [0, n) are the subject: the HUGR array ops' own behaviour is interpreted, panics compare by kind
+if KIND in ("c07", "c19"):
+    from lib import e7_corpus
+    ALL = e7_corpus.corpus(KIND)
+    EXTRA, MODEXTRA = e7_corpus.native_env(STRICT), e7_corpus.MODULE_EXTRA
+elif KIND == "c32":
     from lib import e4_syntax
     ALL = e4_syntax.programs()
     EXTRA, MODEXTRA = e4_syntax.EXTRA_ENV, e4_syntax.MODULE_EXTRA
@@ -65,7 +70,8 @@ def _dump():
     try:
         with open(os.path.join(_dir, f"e7report_{KIND}_{_tag}.json"), "w") as f:
             json.dump({"unsupported": {str(k): v for k, v in UNSUPPORTED.items()}, "paths_outside": OUTSIDE,
-                       "accepted": sum(v[0] == "accepted" for v in VERDICT), "programs": len(VERDICT)}, f)
+                       "accepted": sum(v[0] == "accepted" for v in VERDICT), "programs": len(VERDICT),
+                       "not_lowered": [[BATCH[i], v[0], v[1][:200]] for i, v in enumerate(VERDICT) if v[0] != "accepted"]}, f)
     except Exception:  # noqa: BLE001
         pass
 
@@ -76,7 +82,7 @@ atexit.register(_dump)
 def _outcome_b(entry, args, rec):
     prog, view, fn, _ = entry
     try:
-        return ("ret", e7.run(view, fn, args, rec, FUEL))
+        return ("ret", e7.run(view, fn, args, rec, FUEL, STRICT))
     except e4.Panic as p:
         return ("panic", str(p))
     except ZeroDivisionError:
@@ -91,6 +97,8 @@ def _outcome_b(entry, args, rec):
         return ("outside", "index")
     except e5.Unsupported as u:
         return ("unsupported", str(u))
+    except (TypeError, AttributeError, IndexError, KeyError, ValueError) as e:      # the emitted graph computes with a value of the wrong shape (e.g. an element that was never put back)
+        return ("ill-formed", type(e).__name__)
 
 
 def h_equiv7(which: int, x: int, y: int, r0: int, r1: int, r2: int, r3: int, r4: int, r5: int, r6: int, r7: int) -> bool:
@@ -124,6 +132,11 @@ def h_equiv7(which: int, x: int, y: int, r0: int, r1: int, r2: int, r3: int, r4:
             OUTSIDE[key] = OUTSIDE.get(key, 0) + 1
         return True
     a = e4.outcome(entry[0].run_native, (x, y), ra, EXTRA)
+    if STRICT:
+        # which message a panic carries is not the property's subject: compare "panicked" and the events before it
+        a, b = (a[:1] if a[0] == "panic" else a), (b[:1] if b[0] == "panic" else b)
+        ra.trace = [e for e in ra.trace if e[0] != "panic"]
+        rb.trace = [e for e in rb.trace if e[0] != "panic"]
     if a != b or ra.trace != rb.trace:
         # (formatted under tracing: the values may still be symbolic here; in the native replay they are concrete)
         LAST_DETAIL = f"program #{BATCH[k]} ({entry[0].name}): CPython {a} with events {ra.trace}; emitted HUGR {b} with events {rb.trace}\n{entry[0].src}"
